@@ -523,6 +523,8 @@ def rule_r2(repo):
     for nm, fi in sorted(called.items()):
         rr.instance('state.%s() called by %s' % (nm, fi.qualname))
         own = cs.methods.get(nm)
+        if own is None and nm in cs.class_consts:
+            continue        # bound in the class body (a recorder made by a factory): that it records is decided by the differential R6
         if own is None:
             rr.fail('CompilerState.%s:missing' % nm, fi.where, '%s calls state.%s(), which CompilerState does not override: it would run at compile time '
                     'on the compiler\'s empty state and never at run time' % (fi.qualname, nm))
